@@ -80,8 +80,134 @@ def _mod(ctx: RuleCtx) -> Module:
                     if isinstance(val, (ast.Subscript, ast.Attribute, ast.Name, ast.Constant)):
                         setattr(obj, field, copy.deepcopy(val))
     _declass(mod)
+    _manual_sub_normal_form(mod)
     mod._c14_aliases_expanded = True  # type: ignore[attr-defined]
     return mod
+
+
+def _manual_sub_normal_form(mod: Module) -> None:
+    """`re.sub` written out: one left-to-right pass over `finditer(RX, TEXT)` that emits TEXT[POS:m.start()], CB(m) and moves POS to m.end(),
+    then emits TEXT[POS:], the pieces joined with '' - is by definition `re.sub(RX, CB, TEXT)`.  Recognised with the pieces emitted by `yield`
+    (a parameterless generator closure G, used as `''.join(G())`) or appended to a fresh list L (used as `''.join(L)`); the loop must be exactly
+    the definition (any other statement, slice bound, order or separator: left as written, the readers then say Undecided)."""
+    def emitted(st: ast.stmt, acc: T.Optional[str]) -> T.Optional[ast.AST]:
+        if not isinstance(st, ast.Expr):
+            return None
+        v = st.value
+        if acc is None:
+            return v.value if isinstance(v, ast.Yield) else None
+        if isinstance(v, ast.Call) and norm(v.func) == acc + '.append' and len(v.args) == 1 and not v.keywords:
+            return v.args[0]
+        return None
+
+    def edge(e: ast.AST, m: str, which: str) -> bool:
+        return (isinstance(e, ast.Call) and norm(e.func) == f'{m}.{which}' and not e.keywords and
+                (not e.args or (len(e.args) == 1 and isinstance(e.args[0], ast.Constant) and e.args[0].value == 0)))
+
+    def read(stmts: T.List[ast.stmt], acc: T.Optional[str]) -> T.Optional[ast.Call]:
+        """stmts == [POS = 0, for M in finditer(RX, TEXT): emit TEXT[POS:M.start()]; emit CB(M); POS = M.end(), emit TEXT[POS:]] -> re.sub(RX, CB, TEXT)"""
+        if len(stmts) != 3:
+            return None
+        a, loop, tail = stmts
+        if not (isinstance(a, ast.Assign) and len(a.targets) == 1 and isinstance(a.targets[0], ast.Name) and isinstance(a.value, ast.Constant) and a.value.value == 0 and a.value.value is not False):
+            return None
+        pos = a.targets[0].id
+        if not (isinstance(loop, ast.For) and not loop.orelse and isinstance(loop.target, ast.Name) and isinstance(loop.iter, ast.Call) and len(loop.body) == 3):
+            return None
+        m = loop.target.id
+        it = loop.iter
+        if it.keywords or any(isinstance(x, ast.Starred) for x in it.args):
+            return None
+        if attr_chain(it.func) == 're.finditer' and len(it.args) == 2:
+            rx_e, text = it.args
+        elif isinstance(it.func, ast.Attribute) and it.func.attr == 'finditer' and len(it.args) == 1 and not (attr_chain(it.func) or '').startswith('re.'):
+            rx_e, text = it.func.value, it.args[0]
+        else:
+            return None
+        if not isinstance(text, ast.Name) or not isinstance(rx_e, (ast.Name, ast.Attribute)):
+            return None
+        t = text.id
+        gap, rep, move = loop.body
+        g, r = emitted(gap, acc), emitted(rep, acc)
+        if not (isinstance(g, ast.Subscript) and isinstance(g.value, ast.Name) and g.value.id == t and isinstance(g.slice, ast.Slice) and g.slice.step is None and
+                isinstance(g.slice.lower, ast.Name) and g.slice.lower.id == pos and g.slice.upper is not None and edge(g.slice.upper, m, 'start')):
+            return None
+        if not (isinstance(r, ast.Call) and isinstance(r.func, ast.Name) and len(r.args) == 1 and not r.keywords and isinstance(r.args[0], ast.Name) and r.args[0].id == m):
+            return None
+        if not (isinstance(move, ast.Assign) and len(move.targets) == 1 and isinstance(move.targets[0], ast.Name) and move.targets[0].id == pos and edge(move.value, m, 'end')):
+            return None
+        rest = emitted(tail, acc)
+        if not (isinstance(rest, ast.Subscript) and isinstance(rest.value, ast.Name) and rest.value.id == t and isinstance(rest.slice, ast.Slice) and rest.slice.step is None and
+                isinstance(rest.slice.lower, ast.Name) and rest.slice.lower.id == pos and rest.slice.upper is None):
+            return None
+        if len({pos, m, t, r.func.id} | ({acc} if acc else set())) != (5 if acc else 4) or norm(rx_e) in (pos, m, acc):
+            return None
+        call = ast.Call(func=ast.Attribute(value=ast.Name(id='re', ctx=ast.Load()), attr='sub', ctx=ast.Load()),
+                        args=[rx_e, ast.Name(id=r.func.id, ctx=ast.Load()), ast.Name(id=t, ctx=ast.Load())], keywords=[])
+        return ast.fix_missing_locations(ast.copy_location(call, loop))
+
+    def strip_doc(body: T.List[ast.stmt]) -> T.List[ast.stmt]:
+        return [b for b in body if not (isinstance(b, ast.Expr) and isinstance(b.value, ast.Constant) and isinstance(b.value.value, str))]
+
+    def is_join(c: ast.AST) -> bool:
+        return (isinstance(c, ast.Call) and isinstance(c.func, ast.Attribute) and c.func.attr == 'join' and isinstance(c.func.value, ast.Constant) and
+                c.func.value.value == '' and len(c.args) == 1 and not c.keywords)
+
+    for q, fn in list(mod.funcs().items()):
+        # generator closure
+        for g in [b for b in fn.body if isinstance(b, ast.FunctionDef)]:
+            a = g.args
+            if a.args or a.posonlyargs or a.kwonlyargs or a.vararg or a.kwarg or g.decorator_list:
+                continue
+            sub = read(strip_doc(g.body), None)
+            if sub is None:
+                continue
+            uses = [n for n in ast.walk(fn) if isinstance(n, ast.Name) and n.id == g.name and not any(n is x for x in ast.walk(g))]
+            joins = [c for c in ast.walk(fn) if is_join(c) and isinstance(c.args[0], ast.Call) and isinstance(c.args[0].func, ast.Name) and
+                     c.args[0].func.id == g.name and not c.args[0].args and not c.args[0].keywords]
+            # the names the closure reads must hold at the call what they hold at the definition: straight-line function body, no rebinding
+            stored = {n.id for n in ast.walk(fn) if isinstance(n, ast.Name) and isinstance(n.ctx, ast.Store) and not any(n is x for x in ast.walk(g))}
+            if not joins or len(uses) != len(joins) or {norm(x) for x in sub.args} & stored:
+                continue
+
+            class J(ast.NodeTransformer):
+                def visit_Call(self, n: ast.Call) -> ast.AST:
+                    self.generic_visit(n)
+                    return ast.copy_location(sub, n) if any(n is j for j in joins) else n
+            fn.body = [b for b in fn.body if b is not g]
+            J().visit(fn)
+            for k in [k for k in mod.funcs() if k == f'{q}.{g.name}' or k.startswith(f'{q}.{g.name}.')]:
+                del mod.funcs()[k]
+        # list accumulator, in one block of the function
+        for blk in [n for n in ast.walk(fn) if isinstance(getattr(n, 'body', None), list)]:
+            body = blk.body
+            for i, st in enumerate(body):
+                if not (isinstance(st, (ast.Assign, ast.AnnAssign)) and isinstance(st.value, ast.List) and not st.value.elts):
+                    continue
+                tg = st.targets[0] if isinstance(st, ast.Assign) and len(st.targets) == 1 else getattr(st, 'target', None)
+                if not isinstance(tg, ast.Name) or len(body) < i + 5:
+                    continue
+                acc = tg.id
+                sub = read(body[i + 1:i + 4], acc)
+                if sub is None:
+                    continue
+                others = [n for n in ast.walk(fn) if isinstance(n, ast.Name) and n.id == acc and not any(n is x for b in body[i:i + 4] for x in ast.walk(b))]
+                joins = [c for b in body[i + 4:] for c in ast.walk(b) if is_join(c) and isinstance(c.args[0], ast.Name) and c.args[0].id == acc]
+                if len(joins) != 1 or len(others) != 1:
+                    continue
+                j = joins[0]
+
+                class K(ast.NodeTransformer):
+                    def visit_Call(self, n: ast.Call) -> ast.AST:
+                        self.generic_visit(n)
+                        return ast.copy_location(sub, n) if n is j else n
+                # the join must follow in the same block with nothing in between that could rebind what the loop read
+                nxt = body[i + 4]
+                if not any(c is j for c in ast.walk(nxt)):
+                    continue
+                blk.body = body[:i] + body[i + 4:]
+                K().visit(nxt)
+                break
 
 
 def _declass(mod: Module) -> None:
@@ -1273,6 +1399,9 @@ def r3(ctx: RuleCtx) -> None:
             return None             # a directive without a name: whether it is rejected cleanly is R9's business
         if 'bool01' not in sem:
             raise Undecided('do_define_cmake: no test for `cmakedefine01`')
+        if 'present' not in sem:
+            # e.g. `if <01>: return helper01(name, ..)` / `return helper(name, tokens, ..)`: the look-up of the name happens in callees the table does not read
+            raise Undecided('do_define_cmake: no row decides whether the name is set (the look-up is made by a callee this table does not read)')
         if not sem['present']:
             return _ret('#define {NAME} 0' if sem['bool01'] else '/* #undef {NAME} */')
         if 'truthy' not in sem:
